@@ -299,6 +299,8 @@ def inplace_overwrite(ctx, rng):
 
 def check(ctx):
     rng = np.random.default_rng(ctx.seed)
+    from basisobj import check_basis_objects
+    check_basis_objects(ctx, "C12", np.random.default_rng(ctx.seed + 77))
     multi_object(ctx, rng)
     twin_supercells(ctx, np.random.default_rng(ctx.seed + 77))
     solver_reuse(ctx, np.random.default_rng(ctx.seed + 78))
